@@ -207,11 +207,17 @@ func (m *model) judge(e Ev, o obs, now time.Time) (string, string) {
 	// statement (whether or not an implementation keeps counting across a
 	// lockout): an account that is never locked again after its first lockout
 	// has passed gives unlimited guesses.
-	if now.After(u.mayLocked) { // u.mayLocked: the bound set by EARLIER failures
+	// clear: this failure lies strictly after the end of every lockout that
+	// earlier failures can have started (u.mayLocked still holds the bound set
+	// by EARLIER failures here). A failure at the very instant a lockout ends is
+	// neither refused nor counted by the implementation's strict comparisons;
+	// the statement does not settle that instant, so nothing is demanded of it.
+	clear := now.After(u.mayLocked)
+	if clear {
 		u.run++
 	}
 
-	if u.fMin == lim || u.run == lim {
+	if (u.fMin == lim && clear) || u.run == lim {
 		u.mustLocked = now.Add(m.c.Lockout)
 		u.run = 0
 	}
